@@ -219,16 +219,28 @@ fn check_approx(o: &mut Out, f: &str, bits: &[u32], got: Result<f32, String>, wa
 
 // ------------------------------------------------------------------ exact functions
 
+/// magnitude below which floor() is asserted exactly (DESIGN D-g); overridable for calibration experiments
+fn floor_domain() -> f32 {
+    // "the representable range" of each backend: micromath casts through i32, the built-in fallback through i64,
+    // libm and std handle every finite value (calibrated on the unchanged tree; DESIGN D-g)
+    let default = match CFG {
+        "mm" => 2147483648.0,
+        "none" => 9.223372e18,
+        _ => f32::MAX,
+    };
+    std::env::var("FPPROBE_FLOOR_DOMAIN").ok().and_then(|s| s.parse().ok()).unwrap_or(default)
+}
+
 fn check_floor(o: &mut Out, x: f32) {
     o.evals += 1;
-    if x < 0.0 && x == x.trunc() && x.abs() < 2147483648.0 {
+    if x < 0.0 && x == x.trunc() && x.abs() < floor_domain() {
         o.nt("floor", &[x.to_bits()]);
     }
     let r = catch(|| fp::floor(x));
     match r {
         Err(p) => o.fail("panic", "floor", &[x.to_bits()], format!("floor({x:e}) panicked: {p}")),
         Ok(g) => {
-            if x.is_finite() && x.abs() < 2147483648.0 {
+            if x.is_finite() && x.abs() < floor_domain() {
                 let want = (x as f64).floor();
                 if g as f64 != want {
                     o.fail("floor-wrong", "floor", &[x.to_bits()], format!("{CFG} floor({x:e}) = {g:e}, expected {want:e}"));
